@@ -914,5 +914,8 @@ PROPS["C03"]["explanation"] += " (FILLMODE) ncsetfill clears NC_NOFILL whether o
 PROPS["C17"]["rules"] = PROPS["C17"]["rules"] + [rules_dd.rule_open_ignores_physical_size, rules_dd.rule_new_block_header_nil]
 PROPS["C17"]["explanation"] += " (OPENSIZE) HTPstart does not consult the physical size of the file. (NEWBLOCKNIL) the header written for a new descriptor block names no successor."
 
+PROPS["C15"]["rules"] = PROPS["C15"]["rules"] + [rules_conv.rule_dfsd_records_keep_flavour]
+PROPS["C15"]["explanation"] += " (RECFLAVOUR) the decoders of DFSD side records are given, and use, a number type that carries the data set's byte-order flavour."
+
 NOT_APPLICABLE = {}
 
